@@ -15,7 +15,7 @@ Trace == ndJsonDeserialize(IOEnv.TRACE)
 VARIABLES l, conns, stale, appOff
 tvars == <<vars, l, conns, stale, appOff>>
 
-B(e) == [base |-> e.base, last |-> e.last, present |-> Range(e.present), fmt |-> e.fmt]
+B(e) == [base |-> e.base, last |-> e.last, present |-> Range(e.present), fmt |-> e.fmt, comp |-> (e.codec # 0)]
 CfgOf(e) == [log |-> [i \in DOMAIN e.log |-> B(e.log[i])], logStart |-> e.logStart, hw |-> e.hw, start |-> -2,
              qcap |-> 100000, maxFaults |-> 100000, setOffsets |-> 100000, setTargets |-> {}, bug |-> "none"]
 NoCfg == [log |-> <<>>, logStart |-> 0, hw |-> 0, start |-> -2, qcap |-> 100000, maxFaults |-> 100000,
@@ -41,12 +41,16 @@ FetchEv(e) ==
   ELSE
     LET fresh == e.conn \notin conns
         p == IF fresh THEN Resolve(cfg, rpos) ELSE pos IN
-    /\ IF fresh THEN phase \in {"init", "down"} /\ p <= Last(cfg) ELSE phase = "idle"
+    \* (a fetch on a new connection while the model is idle: the old connection was lost unobserved)
+    /\ IF fresh THEN phase \in {"init", "down", "idle"} /\ p <= Last(cfg) ELSE phase = "idle"
     /\ e.off = p
     /\ conns' = conns \cup {e.conn} /\ UNCHANGED <<stale, appOff>>
     /\ CASE e.kind \in {"data", "cut"} ->
-              /\ RespondAt(p, e.kind, e.nb, e.truncated, e.j) /\ pos' = p
+              /\ RespondAt(p, e.kind, e.nb, e.truncated, e.hdr, e.j) /\ pos' = p
               /\ rpos' = IF fresh THEN p ELSE rpos
+         [] e.kind = "shorthdr" ->
+              /\ pos' = p /\ rpos' = (IF fresh THEN p ELSE rpos) /\ phase' = "down"
+              /\ UNCHANGED <<cfg, pending, truncFrom, endPos, respKind, version, queue, app, got, starts, faults>>
          [] e.kind = "empty" ->
               /\ pos' = p /\ rpos' = (IF fresh THEN p ELSE rpos) /\ phase' = "idle"
               /\ UNCHANGED <<cfg, pending, truncFrom, endPos, respKind, version, queue, app, got, starts, faults>>
@@ -61,7 +65,8 @@ FetchEv(e) ==
 CloseEv(e) ==
   IF e.conn \in stale \/ e.conn \notin conns THEN Skip
   ELSE IF phase = "reading" THEN EndResponse /\ pos' = e.offset /\ Keep
-  ELSE phase \in {"idle", "down"} /\ pos = e.offset /\ Skip    \* Batch of an empty / error answer
+  \* Batch of an empty / error answer (after OffsetOutOfRange the reader seeks the Conn afterwards)
+  ELSE phase \in {"idle", "down"} /\ (pos = e.offset \/ e.err # "") /\ Skip
 
 SetOffsetEv(e) ==
   IF e.err # "" \/ e.o = appOff THEN Skip
